@@ -240,16 +240,28 @@ pub fn run(env: &Env, rep: &Report) {
         run_generated(rep, "roundtrip", vec_len(len).prop_map(|v| RoundTrip { v }), per_len, mix(rep.seed, len as u64), check_roundtrip);
         run_generated(rep, "roundtrip", raw_len(len).prop_map(|v| RoundTrip { v }), per_len / 2, mix(rep.seed, 1000 + len as u64), check_roundtrip);
     }
-    rep.note("roundtrip", "lengths 0..=130 each enumerated".into());
+    // the statement says "any length": the usual embedding sizes and their neighbours as well
+    const LONG: [usize; 12] = [247, 248, 249, 255, 256, 257, 383, 512, 513, 1024, 2048, 4099];
+    for len in LONG {
+        run_generated(rep, "roundtrip", vec_len(len).prop_map(|v| RoundTrip { v }), per_len / 10, mix(rep.seed, 2000 + len as u64), check_roundtrip);
+    }
+    rep.note("roundtrip", "lengths 0..=130 each enumerated, plus 247, 248, 249, 255, 256, 257, 383, 512, 513, 1024, 2048, 4099".into());
     // distances: every length for a (exhaustive), b of equal / neighbouring / random length
     let per = env.tier.pick(500u32, 6000);
     let w = workers();
-    let lens: Vec<usize> = (0..=130).collect();
+    let mut lens: Vec<usize> = (0..=130).collect();
+    lens.extend(LONG);
     std::thread::scope(|s| {
         for chunk in lens.chunks((lens.len() + w - 1) / w) {
             let chunk = chunk.to_vec();
             s.spawn(move || {
                 for la in chunk {
+                    if la > 130 {
+                        for (k, lb) in [la, la + 1, 512].into_iter().enumerate() {
+                            run_generated(rep, "distance", dist_case(la, lb, la), per / 10, mix(rep.seed, (la * 16 + k) as u64), check_dist);
+                        }
+                        continue;
+                    }
                     for (k, lb) in [la, la + 1, (la + 8) % 131, (la * 7 + 3) % 131, 130 - la].into_iter().enumerate() {
                         let lb = lb.min(130);
                         run_generated(rep, "distance", dist_case(la, lb, la), per, mix(rep.seed, (la * 16 + k) as u64), check_dist);
